@@ -1,95 +1,400 @@
-"""C22 — spin locks and node monitors provide mutual exclusion (DESIGN 7, C22)."""
+"""C22 — spin locks and node monitors provide mutual exclusion (DESIGN 7, C22).
+
+Five executable models, each proved in Coq for every schedule (Properties_C22.v) and each tied to the real
+code by step correspondence under the deterministic scheduler (one harness, harness/C22/main.cpp <mode>):
+
+  spin  LV.Model.SpinLock    cds::sync::spin_lock                        cds/sync/spinlock.h
+  re    LV.Model.Reentrant   cds::sync::reentrant_spin_lock              cds/sync/spinlock.h
+  arr   LV.Model.LocksArray  cds::sync::lock_array<spin_lock, mod>       cds/sync/lock_array.h
+  inj   LV.Model.LocksInj    cds::sync::injecting_monitor + scoped_lock  cds/sync/injecting_monitor.h, monitor.h
+  pool  LV.Model.PoolMon     cds::sync::pool_monitor<trivial pool>       cds/sync/pool_monitor.h, monitor.h
+
+Generated client programs are deadlock-free by construction: a *blocking* acquisition always targets a
+lock/cell/node greater than everything the thread holds (or, for the reentrant lock, one it already holds);
+try_lock variants may target anything.
+"""
 import os, json
 import vcheck, conc_check
 
-def gen_cases(ctx, n):
-    rng = ctx.rng
+MODES = [
+    {"mode": "spin", "extract": "Extract_SpinLock.v", "model": "Model/SpinLock.v", "what": "cds::sync::spin_lock", "anchor": "cds/sync/spinlock.h"},
+    {"mode": "re", "extract": "Extract_Reentrant.v", "model": "Model/Reentrant.v", "what": "cds::sync::reentrant_spin_lock", "anchor": "cds/sync/spinlock.h"},
+    {"mode": "arr", "extract": "Extract_LocksArray.v", "model": "Model/LocksArray.v", "what": "cds::sync::lock_array", "anchor": "cds/sync/lock_array.h"},
+    {"mode": "inj", "extract": "Extract_LocksInj.v", "model": "Model/LocksInj.v", "what": "cds::sync::injecting_monitor", "anchor": "cds/sync/injecting_monitor.h"},
+    {"mode": "pool", "extract": "Extract_PoolMon.v", "model": "Model/PoolMon.v", "what": "cds::sync::pool_monitor", "anchor": "cds/sync/pool_monitor.h"},
+]
+QUICK_N = {"spin": 300, "re": 500, "arr": 400, "inj": 200, "pool": 600}
+SPIN_FUEL = 4000
+
+
+# ------------------------------------------------------------------------------------------------------
+# generators
+
+def gen_sched(rng, nthreads, scale=1):
+    kind = rng.below(3)
+    if kind == 0:      # uniform
+        return [rng.below(nthreads) for _ in range(10 + rng.below(60 * scale))], "uniform"
+    if kind == 1:      # long runs with few switches (a thread stalls inside a section / inside lock() / unlock())
+        s = []
+        for _ in range(1 + rng.below(5 * scale)):
+            s += [rng.below(nthreads)] * (1 + rng.below(9))
+        return s, "bursty"
+    first = rng.below(nthreads)   # run one thread up to a point, then the others
+    return [first] * (2 + rng.below(5 * scale)) + [rng.below(nthreads) for _ in range(30 * scale)], "run-then-switch"
+
+
+def gen_spin(rng):
+    nthreads = 2 + rng.below(3); nlocks = 1 + rng.below(3)
+    threads = [[[1 if rng.chance(2, 3) else 2, rng.below(nlocks)] for _ in range(1 + rng.below(3))] for _ in range(nthreads)]
+    sched, sk = gen_sched(rng, nthreads)
+    return {"cfg": [nlocks, SPIN_FUEL], "threads": threads, "sched": sched, "sk": sk}
+
+
+def gen_re(rng):
+    nthreads = 2 + rng.below(3); nlocks = 1 + rng.below(3)
+    threads = []
+    for _ in range(nthreads):
+        ops = []
+        for _ in range(1 + rng.below(2)):
+            depth = 1 + rng.below(3); held = []; op = []
+            for _ in range(depth):
+                k = rng.choice([0, 0, 0, 1, 2, 3])
+                if k == 0:
+                    bigger = [l for l in range(nlocks) if not held or l > max(held)]
+                    cand = bigger + held + held      # re-entrance is likely
+                    if not cand:
+                        break
+                    l = rng.choice(cand)
+                else:
+                    l = rng.below(nlocks)
+                op += [k, l]
+                held.append(l)      # if a try fails the nest stops there; assuming it held is conservative
+            if op:
+                ops.append(op)
+        threads.append(ops)
+    sched, sk = gen_sched(rng, nthreads, 2)
+    return {"cfg": [nlocks, SPIN_FUEL], "threads": threads, "sched": sched, "sk": sk}
+
+
+def gen_arr(rng):
+    nthreads = 2 + rng.below(3); size = 1 + rng.below(3)
+    threads = []
+    for _ in range(nthreads):
+        ops = []
+        for _ in range(1 + rng.below(2)):
+            op = []; held = []
+            if rng.chance(1, 6):
+                op = [2, 0]
+                for _ in range(rng.below(2)):
+                    op += [1, rng.below(3 * size)]       # try_lock under lock_all: always fails on our own cell
+            else:
+                for _ in range(1 + rng.below(3)):
+                    k = rng.choice([0, 0, 3, 1])
+                    if k == 1:
+                        h = rng.below(3 * size)
+                        if h % size in held:
+                            op += [k, h]; break          # fails: the nest ends here
+                    else:
+                        cells = [c for c in range(size) if not held or c > max(held)]
+                        if not cells:
+                            break
+                        h = rng.choice(cells) + size * rng.below(3)
+                    op += [k, h]; held.append(h % size)
+            if op:
+                ops.append(op)
+        threads.append(ops)
+    sched, sk = gen_sched(rng, nthreads, 2)
+    return {"cfg": [size, SPIN_FUEL], "threads": threads, "sched": sched, "sk": sk}
+
+
+def gen_nodes(rng, pool):
+    nthreads = 2 + rng.below(3); nnodes = 1 + rng.below(3)
+    threads = []
+    for _ in range(nthreads):
+        ops = []
+        for _ in range(1 + rng.below(2)):
+            op = []; top = -1
+            for _ in range(1 + rng.below(3)):
+                cand = [n for n in range(nnodes) if n > top]
+                if not cand:
+                    break
+                top = rng.choice(cand)
+                op += [rng.choice([0, 3]), top]
+            ops.append(op)
+        threads.append(ops)
+    sched, sk = gen_sched(rng, nthreads, 4 if pool else 2)
+    cfg = [nnodes, SPIN_FUEL]
+    if pool:
+        cfg.append(rng.choice([0, 1, nnodes, nnodes + nthreads]))
+    return {"cfg": cfg, "threads": threads, "sched": sched, "sk": sk}
+
+
+GEN = {"spin": gen_spin, "re": gen_re, "arr": gen_arr, "inj": lambda r: gen_nodes(r, False), "pool": lambda r: gen_nodes(r, True)}
+
+
+def gen_cases(rng, mode, n, prefix="g"):
     cases = []
     for i in range(n):
-        nthreads = 2 + rng.below(3)
-        nlocks = 1 + rng.below(3)
-        threads = []
-        for t in range(nthreads):
-            ops = []
-            for _ in range(1 + rng.below(3)):
-                ops.append([1 if rng.chance(2, 3) else 2, rng.below(nlocks)])
-            threads.append(ops)
-        kind = rng.below(3)
-        if kind == 0:      # uniform
-            sched = [rng.below(nthreads) for _ in range(10 + rng.below(60))]
-        elif kind == 1:    # long runs with few switches (a thread stalls inside the section)
-            sched = []
-            for _ in range(1 + rng.below(5)):
-                sched += [rng.below(nthreads)] * (1 + rng.below(9))
-        else:              # run one thread up to a point, then others
-            first = rng.below(nthreads)
-            sched = [first] * (2 + rng.below(5)) + [rng.below(nthreads) for _ in range(30)]
-        cases.append({"id": "g%d" % i, "cfg": [nlocks, 4000], "threads": threads, "sched": sched})
+        c = GEN[mode](rng)
+        c["id"] = "%s%s%d" % (prefix, mode, i)
+        c["mode"] = mode
+        cases.append(c)
     return cases
 
-def run(ctx):
-    res = vcheck.coq_build(["Properties/Properties_C22.v"])
-    ctx.coq_evidence(res)
-    model = conc_check.build_model(ctx, "Extract_SpinLock.v")
-    impl = vcheck.cxx_build(os.path.join(vcheck.VERIF, "harness/C22/main.cpp"), os.path.join(ctx.work, "harness"), hook=True, link_cds=False)
-    n = 3000 if ctx.thorough() else 600
+
+# ------------------------------------------------------------------------------------------------------
+# running
+
+def run_impl(ctx, impl, mode, cases, tag, timeout=180):
+    """-> (logs by case id, status) ; status 'ok' | 'crash' | 'timeout'.  The harness flushes after every case,
+    so after a crash / hang the first case without output is the culprit."""
+    cf = os.path.join(ctx.work, tag + ".txt")
+    conc_check.write_cases(cf, cases)
+    rc, out = vcheck.sh([impl, cf, mode], timeout=timeout)
+    logs = conc_check.parse_logs(out)
+    if rc == 0:
+        return logs, "ok"
+    return logs, ("timeout" if rc == 124 else "crash rc=%d" % rc)
+
+
+def run_model(ctx, model, cases, tag, timeout=300):
+    cf = os.path.join(ctx.work, tag + ".txt")
+    conc_check.write_cases(cf, cases)
+    rc, out = vcheck.sh("%s 20000 < %s" % (model, cf), timeout=timeout)
+    return conc_check.parse_logs(out)
+
+
+def monitor_findings(mode, ilog):
+    """Violations of the property itself seen by the implementation-side monitors: [(what, detail)]"""
+    res = []
+    if ilog is None:
+        return res
+    lockobj = {}
+    for x in ilog["extra"]:
+        t = x.split()
+        if t[:2] == ["monitor", "max_inside"] and int(t[2]) > 1:
+            res.append(("two threads inside one critical section guarded by the same lock/cell/node (real code, occupancy monitor, mode %s)" % mode, x))
+        elif t[:2] == ["monitor", "shared"] and int(t[2]) > 0:
+            res.append(("pool_monitor: one pool lock installed in two nodes at once, or installed while in the pool (real code)", x))
+        elif t[:2] == ["monitor", "bad_free"] and int(t[2]) > 0:
+            res.append(("pool_monitor: a lock went back to the pool while locked / still installed / already free, or the pool handed out an installed lock (real code)", x))
+        elif t[:2] == ["monitor", "lockobj"]:
+            lockobj[t[3]] = t[2]
+    if mode == "pool":
+        # allocation discipline on the implementation's own log: no access to a lock object while it is in the pool
+        free = {}       # lock index -> True when in the pool (all locks start there)
+        for l in ilog["lines"]:
+            t = l.split(" ")
+            if len(t) >= 4 and t[1] == "ev" and t[2] == "pool_alloc":
+                free[t[3]] = False
+            elif len(t) >= 4 and t[1] == "ev" and t[2] == "pool_free":
+                if free.get(t[3], True):
+                    res.append(("pool_monitor: a lock is given back to the pool twice (real code, event log)", l)); break
+                free[t[3]] = True
+            elif len(t) >= 3 and t[1] in ("xchg", "ld", "st") and t[2] in lockobj:
+                if free.get(lockobj[t[2]], True):
+                    res.append(("pool_monitor: a thread uses (holds or awaits) a node lock that is in the pool (real code, event log)", l)); break
+    return res
+
+
+def contended(mode, ilog):
+    """non-trivial = some thread observed a lock taken: an exchange on a spin word that read 'true', or a failed CAS
+    (values and success flags are taken from the implementation's event log)"""
+    for l in ilog["lines"]:
+        t = l.split(" ")
+        if len(t) >= 5 and t[1] == "xchg" and t[4] == "i1":
+            return True
+        if len(t) >= 4 and t[1] == "cas" and t[3] == "0":
+            return True
+    return False
+
+
+def features(mode, ilog):
+    f = set()
+    for l in ilog["lines"]:
+        t = l.split(" ")
+        if len(t) < 3:
+            continue
+        if t[1] == "xchg" and len(t) >= 5 and t[4] == "i1": f.add("xchg_saw_taken")
+        elif t[1] == "cas" and t[3] == "0": f.add("cas_failed")
+        elif t[1] == "faa" and mode == "re": f.add("reentered")
+        elif t[1] == "ev":
+            if t[2] == "fail": f.add("try_failed")
+            elif t[2] == "pool_alloc": f.add("pool_alloc")
+            elif t[2] == "pool_free": f.add("pool_free")
+            elif t[2] == "inv" and len(t) >= 4:
+                f.add("method_%s" % t[3])
+    return f
+
+
+def minimise(ctx, impl, mode, case, what):
+    """greedy: drop operations, drop trailing nest levels, shorten the schedule, as long as the same monitor fires"""
+    def fails(c):
+        logs, st = run_impl(ctx, impl, mode, [c], "min", timeout=20)
+        return any(w == what for w, _ in monitor_findings(mode, logs.get(c["id"])))
+    cur = dict(case)
+    budget = 60
+    changed = True
+    while changed and budget > 0:
+        changed = False
+        for ti in range(len(cur["threads"])):
+            for oi in range(len(cur["threads"][ti])):
+                cand = json.loads(json.dumps(cur)); del cand["threads"][ti][oi]
+                budget -= 1
+                if budget > 0 and fails(cand):
+                    cur = cand; changed = True; break
+            if changed: break
+        if not changed and len(cur["sched"]) > 1:
+            for cut in (len(cur["sched"]) // 2, len(cur["sched"]) - 1):
+                cand = dict(cur); cand["sched"] = cur["sched"][:cut]
+                budget -= 1
+                if budget > 0 and fails(cand):
+                    cur = cand; changed = True; break
+    return cur
+
+
+def check_mode(ctx, md, impl, res_ok, stats):
+    mode = md["mode"]
+    model = conc_check.build_model(ctx, md["extract"], tag="model_" + mode)
+    n = QUICK_N[mode] * (5 if ctx.thorough() else 1)
     cases = []
     cdir = os.path.join(vcheck.VERIF, "corpus", "C22")
     for f in sorted(os.listdir(cdir)) if os.path.isdir(cdir) else []:
         if f.endswith(".json"):
-            cases.append(json.load(open(os.path.join(cdir, f))))
+            c = json.load(open(os.path.join(cdir, f)))
+            if c.get("mode", "spin") == mode:
+                cases.append(c)
     ncorpus = len(cases)
-    cases += gen_cases(ctx, n)
-    rc1, mlog, rc2, ilog, raw = conc_check.run_both(ctx, model, impl, cases)
-    shapes = set(); contended = set(); diverged = 0; mon_bad = 0; steps = 0
-    first_div = None
+    cases += gen_cases(ctx.rng, mode, n)
+    mlog = run_model(ctx, model, cases, "m_" + mode)
+    ilog, status = run_impl(ctx, impl, mode, cases, "i_" + mode)
+    st = stats.setdefault(mode, {"cases": 0, "corpus": ncorpus, "diverged": 0, "steps": 0, "contended": 0, "distinct_logs": 0, "distinct_contended": 0,
+                                 "features": {}, "sched_kinds": {}, "monitor_violations": 0})
+    shapes = set(); cshapes = set(); first_div = None; found_real = False
+    if status != "ok":
+        # the harness died or hangs: the first case without a complete log is the failing input
+        bad = next((c for c in cases if c["id"] not in ilog or ilog[c["id"]]["end"] is None), None)
+        if bad is not None:
+            one, st1 = run_impl(ctx, impl, mode, [bad], "crash_" + mode, timeout=20)
+            ctx.violation("%s: the real code %s on a deadlock-free client program (model: terminates normally)" % (md["what"], "hangs (a lock is never released / livelock)" if "timeout" in (status + st1) else "crashes (" + st1 + ")"),
+                          {"case": bad, "mode": mode, "status": status, "status_alone": st1, "model_log": (mlog.get(bad["id"]) or {}).get("lines", [])[-40:],
+                           "impl_log_tail": ((one.get(bad["id"]) or ilog.get(bad["id"]) or {}).get("lines", []))[-40:]})
+            found_real = True
     for c in cases:
         m = mlog.get(c["id"]); i = ilog.get(c["id"])
-        if m is None or i is None:
-            diverged += 1
-            first_div = first_div or (c, {"index": -1, "model": "<no output>" if m is None else "ok", "impl": "<no output>" if i is None else "ok", "prefix": []})
+        if i is None or i["end"] is None:
+            if status == "ok":
+                st["diverged"] += 1
+                first_div = first_div or (c, {"index": -1, "model": "ok" if m else "<no output>", "impl": "<no output>", "prefix": []})
             continue
-        steps += len(i["lines"])
+        st["cases"] += 1
+        st["steps"] += len(i["lines"])
+        st["sched_kinds"][c.get("sk", "corpus")] = st["sched_kinds"].get(c.get("sk", "corpus"), 0) + 1
+        sh = hash(tuple(i["lines"]))
+        shapes.add(sh)
+        if contended(mode, i):
+            st["contended"] += 1; cshapes.add(sh)
+        for ft in features(mode, i):
+            st["features"][ft] = st["features"].get(ft, 0) + 1
+        for what, detail in monitor_findings(mode, i):
+            st["monitor_violations"] += 1; found_real = True
+            if ctx.__dict__.setdefault("_seen", set()).__contains__(what):
+                continue
+            ctx._seen.add(what)
+            small = minimise(ctx, impl, mode, c, what)
+            sl, _ = run_impl(ctx, impl, mode, [small], "minrun", timeout=20)
+            ctx.violation(what, {"case": small, "mode": mode, "monitor": detail, "original_case": c,
+                                 "impl_log": (sl.get(small["id"]) or i)["lines"]})
+        if m is None:
+            st["diverged"] += 1
+            first_div = first_div or (c, {"index": -1, "model": "<no output>", "impl": "ok", "prefix": []})
+            continue
         d = conc_check.compare(m, i)
-        shape = tuple(l for l in m["lines"])
-        shapes.add(hash(shape))
-        if any(l.split(" ")[1] == "ld" and l.split(" ")[2].startswith("o") for l in m["lines"]) and any("xchg" in l for l in m["lines"]):
-            # a spinning thread observed the lock taken at least once
-            if any(" ld o" in l for l in m["lines"] if True):
-                contended.add(hash(shape))
-        for x in i["extra"]:
-            if x.startswith("monitor max_inside"):
-                if int(x.split()[-1]) > 1:
-                    mon_bad += 1
-                    ctx.violation("two threads inside one critical section of cds::sync::spin_lock (real code, occupancy monitor)",
-                                  {"case": c, "impl_log": i["lines"]}, signature=None)
         if d is not None:
-            diverged += 1
-            if first_div is None:
-                first_div = (c, d)
-    if first_div is not None and mon_bad == 0:
-        c, d = first_div
-        # the correspondence broke: look for a real mutual-exclusion failure over more seeds
-        found = False
-        more = gen_cases(ctx, 4000)
-        _, _, _, il2, _ = conc_check.run_both(ctx, model, impl, more, tag="search")
+            st["diverged"] += 1
+            first_div = first_div or (c, d)
+    st["distinct_logs"] = len(shapes); st["distinct_contended"] = len(cshapes)
+    if first_div is not None and not found_real:
+        # the correspondence broke: look for a real failure of the property with the monitors over more seeds
+        more = gen_cases(ctx.rng, mode, 4000, prefix="s")
+        il2, st2 = run_impl(ctx, impl, mode, more, "search_" + mode, timeout=240)
         for c2 in more:
             i2 = il2.get(c2["id"])
-            if i2 and any(x.startswith("monitor max_inside") and int(x.split()[-1]) > 1 for x in i2["extra"]):
-                ctx.violation("two threads inside one critical section of cds::sync::spin_lock (real code, occupancy monitor)", {"case": c2, "impl_log": i2["lines"]})
-                found = True
+            if i2 is None or i2["end"] is None:
+                one, st1 = run_impl(ctx, impl, mode, [c2], "crash_" + mode, timeout=20)
+                ctx.violation("%s: the real code %s on a deadlock-free client program" % (md["what"], "hangs" if "timeout" in (st2 + st1) else "crashes (" + st1 + ")"),
+                              {"case": c2, "mode": mode, "status": st2, "impl_log_tail": ((one.get(c2["id"]) or {}).get("lines", []))[-40:]})
+                found_real = True
                 break
-        if not found:
-            ctx.violation("step correspondence between LV.Model.SpinLock and cds/sync/spinlock.h no longer holds", {"correspondence": "Model/SpinLock.v vs cds::sync::spin_lock", "case": c, "first_divergence": d}, no_input=True)
+            fs = monitor_findings(mode, i2)
+            if fs:
+                what, detail = fs[0]
+                small = minimise(ctx, impl, mode, c2, what)
+                sl, _ = run_impl(ctx, impl, mode, [small], "minrun", timeout=20)
+                ctx.violation(what, {"case": small, "mode": mode, "monitor": detail, "original_case": c2, "impl_log": (sl.get(small["id"]) or i2)["lines"]})
+                found_real = True
+                break
+        if not found_real:
+            c, d = first_div
+            ctx.violation("step correspondence between LV.%s and %s (%s) no longer holds" % (md["model"][:-2].replace("/", "."), md["what"], md["anchor"]),
+                          {"correspondence": "%s vs %s" % (md["model"], md["what"]), "mode": mode, "case": c, "first_divergence": d}, no_input=True)
+    return cases[ncorpus] if len(cases) > ncorpus else None
+
+
+def replay(ctx, impl):
+    r = json.load(open(ctx.replay))
+    c = r.get("case"); mode = r.get("mode") or (c or {}).get("mode", "spin")
+    md = next(m for m in MODES if m["mode"] == mode)
+    if c is None:
+        ctx.log("replay file has no case (no failing input was found at the time)"); return
+    c = dict(c); c.setdefault("id", "replay")
+    model = conc_check.build_model(ctx, md["extract"], tag="model_" + mode)
+    mlog = run_model(ctx, model, [c], "rp_m")
+    ilog, status = run_impl(ctx, impl, mode, [c], "rp_i", timeout=30)
+    i = ilog.get(c["id"]); m = mlog.get(c["id"])
+    if status != "ok" or i is None or i["end"] is None:
+        ctx.violation("%s: the real code %s on the replayed case" % (md["what"], "hangs" if "timeout" in status else "crashes"), {"case": c, "mode": mode, "status": status})
+        return
+    for what, detail in monitor_findings(mode, i):
+        ctx.violation(what, {"case": c, "mode": mode, "monitor": detail, "impl_log": i["lines"]})
+    d = conc_check.compare(m, i) if m else {"index": -1, "model": "<no output>", "impl": "ok", "prefix": []}
+    if d is not None and not ctx.violations:
+        ctx.violation("step correspondence between LV.%s and %s no longer holds (replayed case)" % (md["model"][:-2].replace("/", "."), md["what"]),
+                      {"case": c, "mode": mode, "first_divergence": d}, no_input=True)
+    ctx.log("replay %s mode=%s: %s" % (ctx.replay, mode, "violation reproduced" if ctx.violations else "no violation"))
+
+
+def run(ctx):
+    res = vcheck.coq_build(["Properties/Properties_C22.v"])
+    ctx.coq_evidence(res)
+    impl = vcheck.cxx_build(os.path.join(vcheck.VERIF, "harness/C22/main.cpp"), os.path.join(ctx.work, "harness"), hook=True, link_cds=False)
+    stats = {}; samples = []
+    if ctx.replay:
+        replay(ctx, impl)
+    else:
+        for md in MODES:
+            s = check_mode(ctx, md, impl, res.ok, stats)
+            if s is not None:
+                samples.append({k: s[k] for k in ("mode", "cfg", "threads", "sched")})
     if not res.ok:
         ctx.violation("Coq obligations of C22 do not check: %s" % (res.failed[:2],), {"theorem": [f[2] for f in res.failed], "errors": res.failed[:3]}, no_input=True)
+    tot = lambda k: sum(s[k] for s in stats.values())
     ctx.coverage.update({
-        "evaluations": len(cases), "distinct_nontrivial": len(contended),
-        "rule": "program x schedule pairs (2-4 threads, 1-3 locks, 1-3 CS/TryCS ops each; uniform, bursty and run-then-switch schedules from one splitmix64 stream); distinct = distinct model event logs; non-trivial = a thread observed the lock taken (load in the TATAS inner loop) at least once",
-        "distinct_event_logs": len(shapes), "impl_steps_compared": steps, "diverged": diverged, "corpus_cases": ncorpus,
-        "traces_validated_against_impl": len(cases) - diverged,
-        "samples": [cases[ncorpus]] if len(cases) > ncorpus else cases[:1],
-        "modelled": "cds::sync::spin_lock (try_lock, lock, unlock)",
+        "evaluations": tot("cases") if stats else 0,
+        "distinct_nontrivial": tot("distinct_contended") if stats else 0,
+        "rule": "program x schedule pairs per model (2-4 threads, 1-3 locks/cells/nodes, 1-2 operations each = nests of depth 1-3 of lock / try_lock / try_lock(n) / lock_all / scoped_lock; uniform, bursty and run-then-switch schedules from one splitmix64 stream); distinct = distinct implementation event logs; non-trivial = in the implementation's log some thread observed a lock taken: an exchange on a spin word read 'true' or a compare_exchange failed",
+        "distinct_event_logs": tot("distinct_logs") if stats else 0,
+        "impl_steps_compared": tot("steps") if stats else 0,
+        "diverged": tot("diverged") if stats else 0,
+        "corpus_cases": tot("corpus") if stats else 0,
+        "traces_validated_against_impl": (tot("cases") - tot("diverged")) if stats else 0,
+        "per_model": stats,
+        "samples": samples,
+        "modelled": "cds::sync::spin_lock (try_lock, lock, unlock); reentrant_spin_lock (lock, try_lock, try_lock(n), unlock); lock_array<spin_lock, mod_select_policy> (lock, try_lock, unlock, lock_all, unlock_all, std::unique_lock specialisation); injecting_monitor<spin_lock> and pool_monitor<trivial LIFO pool, backoff::empty, false> (lock, unlock, monitor_scoped_lock)",
     })
-    return ctx.finish(vcheck.STD_TRUSTED + ["hook layer: khizmax_libcds_verif::atomic<T>, baton scheduler, event log (hooks/include)", "ocaml/conc_main.ml event printer"],
-                      ["sequential consistency: memory_order arguments are not modelled", "compare_exchange_weak never fails spuriously under the hook"])
+    return ctx.finish(vcheck.STD_TRUSTED + ["hook layer: khizmax_libcds_verif::atomic<T>, baton scheduler, event log (hooks/include)", "ocaml/conc_main.ml event printer",
+                                            "harness/C22/main.cpp: trivial_pool (the LockPool the pool_monitor is instantiated with) and the occupancy / sharing / bad-free monitors"],
+                      ["sequential consistency: memory_order arguments are not modelled", "compare_exchange_weak never fails spuriously under the hook",
+                       "pool_monitor is instantiated with a trivial LIFO pool whose allocate/deallocate are single scheduled steps (the real vyukov_queue_pool is property C24) and with lock_type = spin_lock<backoff::empty> (a std::mutex cannot be scheduled)",
+                       "thread ids of reentrant_spin_lock: model thread t has id t+1; the correspondence compares access events, not the id values",
+                       "Backoff = cds::backoff::empty in every instantiation (no access inside the back-off)"])
